@@ -37,6 +37,8 @@ def yflow(t):
         return str(t)
     if 'l' in t:
         return '[' + ', '.join(yflow(x) for x in t['l']) + ']'
+    if 's' in t:
+        return '!!set {' + ', '.join(yflow(x) for x in t['s']) + '}'
     if 'd' in t:
         return '{' + ', '.join(f'{k}: {yflow(x)}' for k, x in t['d']) + '}'
     if 'ref' in t:
@@ -117,11 +119,17 @@ def step_index(j, turn=False):
 # ---------------------------------------------------------------- roots
 
 
+def has_set(t):
+    if isinstance(t, dict):
+        return 's' in t or any(has_set(x) for x in t.get('l', [])) or any(has_set(x) for _, x in t.get('d', []))
+    return False
+
+
 def in_model(case):
     for st in case['main'] + case['other']:
-        if st['kind'] in ('add', 'raw'):
+        if st['kind'] in ('add', 'raw') or any(has_set(v) for _, v in st.get('in', [])):
             return False
-    return True
+    return not any(has_set(v) for _, v in case['vars'] + case['dict_in'])
 
 
 def roots(case):
@@ -153,6 +161,8 @@ def ctree(t):
         mode = {'copy': 'RCopy', 'ff': 'RFlat', 'py': 'RPy'}[t['ref'][0]]
         return f'(TRef {mode} {cstr(t["ref"][1])})'
     if 'obj' in t:
+        if t['obj'] == 'cycle':
+            return '(TRef RCopy "<cycle>")'
         return f'(TRef RCopy {cstr("<obj " + str(t["obj"]) + ">")})'
     raise ValueError(f'bad tree {t!r}')
 
@@ -162,64 +172,172 @@ def cpairs(pairs):
 
 
 def body_ops(st):
+    """abstract operations (tuples) of the step's body."""
     k = st['kind']
     if k == 'set':
-        return [f'SetFmt {cstr(a)} {ctree(t)}' for a, t in st['pairs']]
+        return [('SetFmt', a, t) for a, t in st['pairs']]
     if k == 'append':
         if st['mode'] == 'key':
-            return [f'AppendKey {cstr(st["list"])} {ctree(st["addMe"])}']
-        mode = {'ff': 'RFlat', 'py': 'RPy'}[st['mode']]
-        return [f'AppendObj {mode} {cstr(st["list"])} {ctree(st["addMe"])}']
+            return [('AppendKey', st['list'], st['addMe'])]
+        return [('AppendObj', st['mode'], st['list'], st['addMe'])]
     if k == 'merge':
-        return [f'Merge {cpairs(st["pairs"])}']
+        return [('Merge', st['pairs'])]
     if k == 'default':
-        return [f'Defaults {cpairs(st["pairs"])}']
+        return [('Defaults', st['pairs'])]
     if k == 'py':
         c = st['code']
-        one = (f'PyAppend {cstr(c[1])} ({c[2]})%Z' if c[0] == 'append'
-               else f'PySetItem {cstr(c[1])} {cstr(c[2])} ({c[3]})%Z')
+        one = ('PyAppend', c[1], c[2]) if c[0] == 'append' else ('PySetItem', c[1], c[2], c[3])
         if st.get('retry'):
             out = []
             for n in range(1, st['retry'] + 1):
-                out += [f'SetInt "retryCounter" {n}%Z', one]
+                out += [('SetInt', 'retryCounter', n), one]
             return out
         return [one]
     if k == 'copy':
-        return [f'CopyRef {cstr(a)} {cstr(b)}' for a, b in st['pairs']]
+        return [('CopyRef', a, b) for a, b in st['pairs']]
     raise ValueError(k)
 
 
 def step_ops(st, root_index, where, var_roots):
     """ops of one step followed by its probe. root_index: {(pname, j, key): n}."""
     if st['kind'] == 'configvars':
-        return [f'InjectIn {cstr(k)} (rt {n}%nat)' for k, n in var_roots] + ['Probe']
-    ops = [f'InjectIn {cstr(k)} (rt {root_index[(where[0], where[1], k)]}%nat)' for k, _ in st.get('in', [])]
+        return [('InjectIn', k, n) for k, n in var_roots] + [('Probe',)]
+    ops = [('InjectIn', k, root_index[(where[0], where[1], k)]) for k, _ in st.get('in', [])]
     body = body_ops(st)
     if st.get('foreach'):
-        ops.append(f'SetFmt "$fe" {ctree({"l": st["foreach"]})}')
+        ops.append(('SetFmt', '$fe', {'l': st['foreach']}))
         for n in range(len(st['foreach'])):
-            ops.append(f'BindElem "i" "$fe" {n}%nat')
+            ops.append(('BindElem', 'i', '$fe', n))
             ops += body
-        ops.append('Unset "$fe"')
+        ops.append(('Unset', '$fe'))
     else:
         ops += body
-    ops += [f'Unset {cstr(k)}' for k, _ in st.get('in', [])]
-    ops.append('Probe')
+    ops += [('Unset', k) for k, _ in st.get('in', [])]
+    ops.append(('Probe',))
     return ops
+
+
+def render_op(o):
+    t = o[0]
+    if t == 'InjectIn':
+        return f'InjectIn {cstr(o[1])} (rt {o[2]}%nat)'
+    if t == 'Unset':
+        return f'Unset {cstr(o[1])}'
+    if t == 'SetFmt':
+        return f'SetFmt {cstr(o[1])} {ctree(o[2])}'
+    if t == 'CopyRef':
+        return f'CopyRef {cstr(o[1])} {cstr(o[2])}'
+    if t == 'AppendKey':
+        return f'AppendKey {cstr(o[1])} {ctree(o[2])}'
+    if t == 'AppendObj':
+        return f'AppendObj {"RFlat" if o[1] == "ff" else "RPy"} {cstr(o[2])} {ctree(o[3])}'
+    if t == 'PyAppend':
+        return f'PyAppend {cstr(o[1])} ({o[2]})%Z'
+    if t == 'PySetItem':
+        return f'PySetItem {cstr(o[1])} {cstr(o[2])} ({o[3]})%Z'
+    if t == 'Merge':
+        return f'Merge {cpairs(o[1])}'
+    if t == 'Defaults':
+        return f'Defaults {cpairs(o[1])}'
+    if t == 'BindElem':
+        return f'BindElem {cstr(o[1])} {cstr(o[2])} {o[3]}%nat'
+    if t == 'SetInt':
+        return f'SetInt {cstr(o[1])} {o[2]}%Z'
+    if t == 'Probe':
+        return 'Probe'
+    raise ValueError(o)
+
+
+def pipeline_ops(case, pname, blocks=False):
+    rs = roots(case)
+    root_index = {w: n for n, (w, _) in enumerate(rs)}
+    var_roots = [(w[2], n) for n, (w, _) in enumerate(rs) if w[0] == 'vars']
+    bl = [step_ops(st, root_index, (pname, j), var_roots) for j, st in enumerate(case[pname])]
+    return bl if blocks else [o for b in bl for o in b]
+
+
+# ---- python mirror of Alias.disciplined (evidence tags only; the theorem is about the Coq one)
+def _byref_tainted(T, t):
+    if isinstance(t, int):
+        return False
+    if 'ref' in t:
+        return t['ref'][0] != 'copy' and t['ref'][1] in T
+    if 'l' in t:
+        return any(_byref_tainted(T, x) for x in t['l'])
+    return any(_byref_tainted(T, x) for _, x in t['d'])
+
+
+def _bind(T, k, t):
+    if isinstance(t, dict) and 'ref' in t:
+        if t['ref'][0] != 'copy' and t['ref'][1] in T:
+            return T | {k}
+        return T - {k}
+    if _byref_tainted(T, t):
+        return None
+    return T - {k}
+
+
+def disciplined(ops):
+    T = set()
+    for o in ops:
+        t = o[0]
+        if t == 'InjectIn':
+            T = T | {o[1]}
+        elif t in ('Unset', 'SetInt'):
+            T = T - {o[1]}
+        elif t == 'SetFmt':
+            T = _bind(T, o[1], o[2])
+        elif t in ('CopyRef', 'BindElem'):
+            T = (T | {o[1]}) if o[2] in T else (T - {o[1]})
+        elif t == 'AppendKey':
+            if o[1] in T or _byref_tainted(T, o[2]):
+                return False
+        elif t == 'AppendObj':
+            if o[2] in T or _byref_tainted(T, o[3]):
+                return False
+        elif t in ('PyAppend', 'PySetItem'):
+            if o[1] in T:
+                return False
+        elif t == 'Merge':
+            for k, v in o[1]:
+                if isinstance(v, dict) and 'ref' in v:
+                    T = _bind(T, k, v)
+                elif k in T or _byref_tainted(T, v):
+                    return False
+        elif t == 'Defaults':
+            for k, v in o[1]:
+                if k in T:
+                    return False
+                if isinstance(v, dict) and 'ref' in v:
+                    if v['ref'][0] != 'copy' and v['ref'][1] in T:
+                        T = T | {k}
+                elif _byref_tainted(T, v):
+                    return False
+        if T is None:
+            return False
+    return True
 
 
 def coq_runs(case, order):
     """Coq term `fun rt => [runspec..]` for the runs named in order ('main'/'other')."""
-    rs = roots(case)
-    root_index = {w: n for n, (w, _) in enumerate(rs)}
-    var_roots = [(w[2], n) for n, (w, _) in enumerate(rs) if w[0] == 'vars']
     specs = {}
     for pname in ('main', 'other'):
-        ops = []
-        for j, st in enumerate(case[pname]):
-            ops += step_ops(st, root_index, (pname, j), var_roots)
+        ops = [render_op(o) for o in pipeline_ops(case, pname)]
         specs[pname] = f'(mkrun {cpairs(case["dict_in"])} [' + '; '.join(ops) + '])'
     return '(fun rt => [' + '; '.join(specs[p] for p in order) + '])'
+
+
+def coq_threads(case):
+    """Coq term `fun rt => [thread; thread]`, a thread = (init, [ops of step 0; ops of step 1; ...])."""
+    ths = []
+    for pname in ('main', 'other'):
+        blocks = ['[' + '; '.join(render_op(o) for o in b) + ']' for b in pipeline_ops(case, pname, True)]
+        ths.append(f'({cpairs(case["dict_in"])}, [' + '; '.join(blocks) + '])')
+    return '(fun rt => [' + '; '.join(ths) + '])'
+
+
+def coq_scheds(case):
+    return '[' + '; '.join('[' + '; '.join(f'{t}%nat' for t in s) + ']' for s in case['threads']['schedules']) + ']'
 
 
 def coq_defs(case):
